@@ -86,7 +86,11 @@ async fn run_case(c: &Case) -> Result<Obs, String> {
     // upload
     if !up.is_empty() {
         if let Some(s) = st.as_mut() {
-            let _ = s.tx.send_data(bytes::Bytes::from(up.clone()), c.client == "upload-then-half-close");
+            // in three DATA frames, the middle one empty (legal, and not the end of the stream)
+            let half = up.len() / 2;
+            let _ = s.tx.send_data(bytes::Bytes::copy_from_slice(&up[..half]), false);
+            let _ = s.tx.send_data(bytes::Bytes::new(), false);
+            let _ = s.tx.send_data(bytes::Bytes::copy_from_slice(&up[half..]), c.client == "upload-then-half-close");
         }
         if let Some(cl) = h1.as_mut() {
             cl.send(&up).await;
@@ -355,7 +359,7 @@ pub fn run_into(rep: &mut Report, _tier: Tier) {
         judge(c, &o)
     });
     rep.sub.push(json!({"sub":"door-endings","cases":r.evaluations,"completed":r.completed,"classes":r.classes.iter().map(|(k, v)| format!("{k}={}", v.0)).collect::<Vec<_>>(),
-        "what":"real accept path + real TCP forwarder: {HTTP/1.1, HTTP/2} x destination sends {0, 5, 3000, 200000} bytes then {FIN, RST} x client {only reads, uploads 3000 bytes then half-closes, uploads and keeps open}"}));
+        "what":"real accept path + real TCP forwarder: {HTTP/1.1, HTTP/2} x destination sends {0, 5, 3000, 200000} bytes then {FIN, RST} x client {only reads, uploads 3000 bytes then half-closes, uploads and keeps open}; an HTTP/2 upload goes in three DATA frames, the middle one empty"}));
     rep.cov("door_ending_cases", r.evaluations);
     rep.violations(r.violations);
     for h2 in [false, true] {
